@@ -175,7 +175,9 @@ theorem C03_gen : Gen.HeaderLength = 20 ∧ Gen.Vbit = 128 ∧
     -- every reader type goes through readHeader and readBody, whose first statement rejects a
     -- declared length below the header's (`C03_short_length_rejected`)
     Gen.readMessageCalls = ["readHeader", "readBody"] ∧
-    Gen.readBodyGuard = "(m.Header.MessageLength<HeaderLength)" := by decide
+    Gen.readBodyGuard = "(m.Header.MessageLength<HeaderLength)" ∧
+    -- the pooled read buffer is sliced only if it is as long as the current MessageBufferLength
+    Gen.readerBufferSliceCond = "((l<=MessageBufferLength)&&(cap(b)>=MessageBufferLength))" := by decide
 
 /-! ### resources -/
 
